@@ -394,9 +394,11 @@ impl IntColBuffer {
         self.max = cmp::max(elem, self.max);
         if elem > self.last {
             self.increasing += 1;
-        } else if elem.checked_sub(self.last).is_none() {
+        }
+        // delta coding subtracts consecutive values in place: rule it out as soon as one difference does not fit i64
+        if !self.data.is_empty() && elem.checked_sub(self.last).is_none() {
             self.allow_delta_encode = false;
-        };
+        }
         self.last = elem;
         self.data.push(elem);
     }
